@@ -9,7 +9,7 @@ normalisation.
 import json
 import multiprocessing as mp
 
-from . import core, docgen, htmlnorm
+from . import blockparse, core, docgen, htmlnorm
 
 
 def _worker(docs):
@@ -48,9 +48,14 @@ def run():
     ck = core.Check('C03', 'model_checking',
                     'documents typed by spec/DocGen.tla: exhaustive over all documents of <= 2 blocks at nesting <= 1 with minimal spelling ranges (quick; '
                     'thorough adds <= 2 blocks at nesting <= 2 and <= 3 blocks at nesting <= 1), plus simulated documents of up to 8 (14) blocks at nesting <= 3 (4) '
-                    'with full spelling ranges; distinct = distinct source texts; non-trivial = at least two blocks')
+                    'with full spelling ranges; plus every line sequence of <= 3 (thorough: 4) lines over nine line alphabets read by spec/BlockParse.tla; '
+                    'distinct = distinct source texts; non-trivial = at least two blocks')
     docs = docgen.documents(ck, 'blocks')
     compare(ck, docs, 'DocGen.html')
+    # the other direction: spec/BlockParse.tla READS every line sequence up to 3 (quick) / 4 (thorough) lines over nine line alphabets
+    # and builds the tree CommonMark assigns to it; the real parser must give the HTML of that tree
+    bdocs = blockparse.documents(ck, 3 if ck.tier == 'quick' else 4)
+    compare(ck, bdocs, 'BlockParse.html')
     # binding self-test
     m = core.impl()
     d = docs[len(docs) // 2]
